@@ -40,7 +40,7 @@ REQUIRED_REACH = ['CompositionConversionMCNPToT4.py:compositionConversionMCNPToT
 FAMILIES = ['atom-massrho', 'mass-massrho', 'atom-atomrho', 'natural',
             'suffixes', 'keywords', 'many-entries', 'exponents', 'heavy-z',
             'two-densities', 'repeated-nuclide', 'same-value-spellings',
-            'mixed-signs']
+            'keywords-blank-forms', 'm0-card', 'mixed-signs']
 _PER = {'quick': 14, 'thorough': 4000}
 
 
@@ -131,6 +131,14 @@ def build(case):
                 keywords.append((rng.randint(0, nent),
                                  rng.choice(['nlib=70c', 'plib=04p', 'gas=1',
                                              'NLIB=80c', 'estep=10'])))
+        if fam == 'keywords-blank-forms':
+            # the equals sign of a keyword entry is optional and may have
+            # blanks around it
+            for _ in range(rng.randint(1, 2)):
+                keywords.append((rng.randint(0, nent),
+                                 rng.choice(['nlib 70c', 'nlib = 70c',
+                                             'gas= 1', 'plib =04p',
+                                             'NLIB 80c', 'estep = 10'])))
         deck.mats.append(M.Material(mid_num, entries, keywords))
         # densities
         dens = []
@@ -165,6 +173,10 @@ def build(case):
             deck.cells.append(M.Cell(cellno, mat=mid_num, rho=rho, geom=geom,
                                      imp={'n': '1'}))
             deck.expect[(mid_num, rho)] = (entries, negative)
+    if fam == 'm0-card':
+        # default libraries for all materials: not a material
+        deck.extra_data.append(['m0', rng.choice(['nlib=80c', 'nlib=70c',
+                                                  'plib=04p'])])
     deck.cells.append(M.Cell(90, mat=0, geom=M.AND(M.S(cellno),
                                                    M.S(-WORLD_SURF)),
                              imp={'n': '1'}))
